@@ -137,7 +137,7 @@ type Case struct {
 	P                int64      `json:"P"`
 	Min              int32      `json:"min"`
 	Max              int32      `json:"max"`
-	Idle             string     `json:"idle"` // off | now | long
+	Idle             string     `json:"idle"` // off | now | long | mid (MidIdle; only in units that do not judge convergence)
 	DisableAlleviate bool       `json:"disableAlleviate"`
 	RetainStore      bool       `json:"retainStore"`
 	NewShardDelay    int        `json:"newShardDelay"`
@@ -870,6 +870,8 @@ func NewWorld(c *Case) (*World, error) {
 		opt.MaxIdleTime = time.Nanosecond
 	case "long":
 		opt.MaxIdleTime = 1000 * time.Hour
+	case "mid":
+		opt.MaxIdleTime = MidIdle
 	}
 	rand.Seed(c.RandSeed)
 	co := coordinator.NewCoordinator(opt, stepper{w}, func() *prom.ConfigInfo { return w.coordCfg }, w.explore,
